@@ -91,6 +91,27 @@ type Session struct {
 
 var cur *Session
 
+// knobs are tuning constants of the code under test (buffer sizes) that a
+// case may set to unusual values; unset knobs keep the value in the source.
+var knobs = map[string]int{}
+
+// SetKnob sets (v > 0) or clears (v <= 0) a knob.
+func SetKnob(name string, v int) {
+	if v > 0 {
+		knobs[name] = v
+	} else {
+		delete(knobs, name)
+	}
+}
+
+// Knob returns the value of the knob, or def when it is not set.
+func Knob(name string, def int) int {
+	if v, ok := knobs[name]; ok {
+		return v
+	}
+	return def
+}
+
 // Begin starts a session. Only one session can be active.
 func Begin(p Plan) *Session {
 	s := &Session{plan: p, handles: map[*os.File]*handle{}, KeepLog: true}
